@@ -196,7 +196,8 @@ fn main() {
                 writeln!(fc, "{i} {line}").unwrap();
             }
             fc.flush().unwrap();
-            let results = run_isolated(&lines, Duration::from_secs(if quick { 300 } else { 3000 }));
+            // (generous: on a loaded machine the cases that move gigabytes take minutes; a case that hangs is still caught)
+            let results = run_isolated(&lines, Duration::from_secs(if quick { 1800 } else { 5000 }));
             let mut fi = std::io::BufWriter::new(std::fs::File::create(outdir.join("impl.txt")).unwrap());
             let mut distinct: HashSet<u64> = HashSet::new();
             let mut nontrivial = 0u64;
